@@ -261,7 +261,11 @@ def child(arg):
     pairs = sorted({(e[0], e[1]) for e in R if e[1]})
     c["errors_without_line"] += sum(1 for e in R if not e[1])
     if len(pairs) > arg["max_pairs"]:
-      pairs = sorted(rng.sample(pairs, arg["max_pairs"]))
+      # errors on the first physical line are always kept: a directive there covers "line 1",
+      # the position at which errors of temporary frames (string annotations) are first logged
+      first = [p for p in pairs if p[1] == 1]
+      rest = [p for p in pairs if p[1] != 1]
+      pairs = sorted(first + rng.sample(rest, max(0, arg["max_pairs"] - len(first))))
     cases = [(E, L, od.SPELL_DISABLE) for E, L in pairs]
     cases += [(None, L, od.SPELL_IGNORE) for L in sorted({L for _, L in pairs})]
     for E, L, spelling in cases:
@@ -295,7 +299,16 @@ def child(arg):
       elif len(out["samples"]) < 2 and nt:
         out["samples"].append({"trailing_ok": {"line": src.split("\n")[L - 1], "E": E, "L": L,
                                                "spelling": spelling, "removed": res["removed"]}})
-    for E, a, b in _pick_standalone(rng, R, nlines, arg["n_standalone"]):
+    standalone = _pick_standalone(rng, R, nlines, arg["n_standalone"])
+    # a range that opens on the very first line of the file and closes right after the first
+    # statement: everything from original line 2 on must be untouched
+    classes_elsewhere = sorted({e[0] for e in R if e[1] and e[1] > 1})
+    for E in sorted({e[0] for e in R if e[1] == 1})[:2] + (
+        [rng.choice(classes_elsewhere)] if classes_elsewhere else []):
+      if (E, 1, 2) not in standalone:
+        standalone.append((E, 1, 2))
+        c["standalone_first_line_range"] += 1
+    for E, a, b in standalone:
       res = judge_standalone(src, R, S, geo, E, a, b)
       c["standalone_" + res["status"].replace("-", "_")] += 1
       if res["status"] in ("not-applicable", "crash"):
